@@ -8,6 +8,14 @@ and the integral-scale setter.
 search (independent of the Lean model): identities on the real API for every class over its whole bounds,
 closed forms against mpmath at 30 digits, integral_scale against exact values / mpmath quadrature,
 percentile_scale by substitution, nugget / axis / yadrenko / spatial variants against direct numpy.
+
+Strengthened (seeded-change round): (1) tools/special.py — exp_int / inc_gamma / inc_gamma_low dispatch, tplstable_cor, TPL*.correlation
+and Integral.cor are modelled (scipy primitives as parameters) and compared on orders derived from the branch conditions (on / 1-4 ulp
+off / inside / at the edges of / just outside the np.isclose band of integers, half-integers, -0.5) and arguments through every x-branch;
+the search compares the four exponential-integral classes and the helpers themselves with mpmath on the same systematic orders.
+(2) read / change / read histories on one living object: derived quantities (integral_scale, integral_scale_vec, percentile_scale,
+len_rescaled, function values) against a freshly built model and an independent quadrature of the current correlation, all shipped
+classes + user classes with optional arguments; model side: GSV.Model.CovFn.mrun.
 """
 import math
 import warnings
@@ -23,6 +31,14 @@ ASSUMPTIONS = [
     "scipy.integrate.quad / scipy.optimize.root (integral_scale of classes without closed form, percentile_scale) "
     "are parameters: their results are checked by substitution, not modelled",
     "the lag of the *_spatial variants comes from the Geo model (property C12)",
+    "tools.special: scipy's exp1 / expn / gamma * gammaincc / gamma * gammainc are parameters of the model (Prims); the harness "
+    "evaluates these leaves and the plan arithmetic of GSV.Model.CovFn.evalG / evalL, the model decides every branch; that the leaves "
+    "are the exponential integral / incomplete gamma functions is checked against mpmath by the search, not proved",
+    "orders inside the np.isclose band of an integer are compared with the documented formula AND with the integer-order formula the "
+    "code evaluates there (known finding N4); just outside the band the tolerance includes the a-priori rounding error of the code's "
+    "own recurrence (recurrence_error_bound), which grows like 1 / distance to the integer; for x > 30 it includes the first omitted term "
+    "of the documented first-order asymptote (asymptote_error_bound: <= 7e-14 for orders <= 26, ~1e-12 for TPLStable orders ~ 100)",
+    "read/change/read histories: the re-padding of anis on a dimension change is observed, not modelled (C14)",
 ]
 
 EPS = 2.0 ** -52
@@ -399,6 +415,307 @@ def intscale_case(col, rng, name):
                 [m.calc_integral_scale()], 0.0, rtol=1e-14)
 
 
+# -------------------------------------------------- correspondence of tools/special.py (plans + affine forms, two driver rounds)
+def interp_gplan(plan, x):
+    """evaluate an inc_gamma plan of the model: the leaves are the scipy primitives, the arithmetic is GSV.Model.CovFn.evalG"""
+    from scipy import special as sps
+    k = plan[0]
+    if k == "exp1":
+        return sps.exp1(x)
+    if k == "powexpn":
+        a = proto.b2f(plan[1])
+        return x ** a * sps.expn(int(plan[2]), x)
+    if k == "gammaq":
+        a = proto.b2f(plan[1])
+        return sps.gamma(a) * sps.gammaincc(a, x)
+    if k == "down":
+        a = proto.b2f(plan[1])
+        return (interp_gplan(plan[2], x) - x ** a * np.exp(-x)) / a
+    return np.full_like(x, np.nan)
+
+
+def interp_lplan(plan, x):
+    from scipy import special as sps
+    k = plan[0]
+    if k == "pole":
+        return np.full_like(x, np.inf)
+    if k == "gammap":
+        a = proto.b2f(plan[1])
+        return sps.gamma(a) * sps.gammainc(a, x)
+    if k == "up":
+        a = proto.b2f(plan[1])
+        return (interp_lplan(plan[2], x) + x ** a * np.exp(-x)) / a
+    return np.full_like(x, np.nan)
+
+
+def interp_exp_int(res, xs):
+    """value of the model's exp_int(s, xs) from the driver's answer to `special_exp_int`"""
+    from scipy import special as sps
+    xs = np.asarray(xs, dtype=float)
+    plan = res["plan"]
+    if plan[0] == "exp1":
+        return sps.exp1(xs), ["exp1"] * xs.size
+    if plan[0] == "expn":
+        return sps.expn(int(plan[1]), xs), ["expn"] * xs.size
+    out = np.full(xs.shape, np.nan)
+    kinds = []
+    for i, (x, c) in enumerate(zip(xs, res["x"])):
+        kinds.append(c[0])
+        if c[0] == "neg":
+            out[i] = np.nan
+        elif c[0] in ("inf", "zero"):
+            out[i] = {"inf": np.inf, "nan": np.nan}.get(c[1], np.nan) if isinstance(c[1], str) else proto.b2f(c[1])
+        else:
+            ax = np.array([abs(x)])
+            out[i] = float(interp_gplan(plan[1], ax)[0]) * proto.b2f(c[1])
+    return out, kinds
+
+
+def helper_orders(rng, ints, extra):
+    out = []
+    for n in ints:
+        out += [s for _, s in order_targets(n)]
+    return out + list(extra)
+
+
+HELPER_X = [-1.0, -1e-300, 0.0, 1e-300, 1e-30, 1e-21, 1e-20, 1.0000001e-20, 1e-16, 1e-12, 1e-6, 1e-3, 1e-2, 1.0000001e-2, 0.1, 0.5,
+            1.0, 2.0, 5.0, 10.0, 29.9, 30.0, 30.000000000000004, 30.1, 35.0, 35.000001, 50.0, 100.0, 700.0, 800.0]
+
+
+def corr_special(ctx, rng):
+    """tools.special against GSV.Model.CovFn: (1) exp_int / inc_gamma / inc_gamma_low on orders and arguments derived from
+    their branch conditions; (2) tplstable_cor, TPL*.correlation and Integral.cor expanded by the model into
+    const + sum coef * exp_int(s, x), with exp_int evaluated through (1).  Leaves = scipy primitives."""
+    from gstools.tools import special as gsp
+    dis, dist, samples = [], {}, []
+    evals, distinct = 0, 0
+
+    def count(k, n=1):
+        dist[k] = dist.get(k, 0) + n
+
+    def compare(label, case, impl, model, rtol, atol=0.0):
+        nonlocal evals, distinct
+        impl, model = np.asarray(impl, dtype=float), np.asarray(model, dtype=float)
+        evals += impl.size
+        distinct += 1
+        bad = differs(model, impl, 0.0, rtol, 0) if np.isscalar(atol) and atol == 0.0 else None
+        if bad is None:
+            fin = np.isfinite(impl) & np.isfinite(model)
+            bad = np.zeros(impl.shape, dtype=bool)
+            bad[~fin] = ~((np.isnan(impl[~fin]) & np.isnan(model[~fin])) | (impl[~fin] == model[~fin]))
+            bad[fin] = np.abs(impl[fin] - model[fin]) > rtol * np.abs(impl[fin]) + np.broadcast_to(atol, impl.shape)[fin]
+        if bad.any():
+            i = int(np.argmax(bad))
+            dis.append({"what": label, "case": case, "index": i, "impl": float(impl[i]), "model": float(model[i]), "n_bad": int(bad.sum())})
+        elif len(samples) < 3:
+            samples.append({"label": label, "case": case, "impl_first": impl[:4].tolist(), "model_first": model[:4].tolist()})
+
+    # ---- (1) helpers
+    quick = ctx.quick
+    e_ints = [0, 1, 2, 3, 5, 26, 101] if quick else list(range(-3, 30)) + [57, 101, 181]
+    e_orders = helper_orders(rng, e_ints, [-0.5, nextk(-0.5, 1), nextk(-0.5, -1), -0.49, -0.51, -9.0, -9.3, -8.7, -12.5, -60.0,
+                                            nextk(-60.0, 1), -60.5, -70.25, -99.5] + list(rng.uniform(-5, 30, 6)))
+    g_orders = helper_orders(rng, [0, -1, -2, -5, 1, 3] if quick else list(range(-12, 6)), [-0.5, nextk(-0.5, 1), nextk(-0.5, -1),
+                                                                                               0.5, -30.5, -99.5] + list(rng.uniform(-8, 4, 6)))
+    xs = np.array(HELPER_X + list(np.exp(rng.uniform(np.log(1e-22), np.log(900.0), 6))))
+    xpos = xs[xs > 0]
+    ops = [{"op": "special_exp_int", "s": proto.f2b(s), "x": proto.fbits(xs)} for s in e_orders]
+    ops += [{"op": "special_inc_gamma", "s": proto.f2b(s)} for s in g_orders]
+    ops += [{"op": "special_inc_gamma_low", "s": proto.f2b(s)} for s in g_orders]
+    res = proto.run_driver(ops)
+    with warnings.catch_warnings(), np.errstate(all="ignore"):
+        warnings.simplefilter("ignore")
+        for s, r in zip(e_orders, res[:len(e_orders)]):
+            if isinstance(r, dict) and "error" in r:
+                dis.append({"what": "special/exp_int: model raised " + r["error"], "case": {"s": s}})
+                continue
+            model, kinds = interp_exp_int(r, xs)
+            for k in set(kinds):
+                count("exp_int:" + k, kinds.count(k))
+            count("exp_int-order:" + order_class(s))
+            compare("special/exp_int", {"cls": "exp_int", "kw": {"s": s}, "plan": r["plan"][0]}, gsp.exp_int(s, xs), model, 1e-13)
+        off = len(e_orders)
+        for s, r in zip(g_orders, res[off:off + len(g_orders)]):
+            count("inc_gamma:" + r[0])
+            compare("special/inc_gamma", {"cls": "inc_gamma", "kw": {"s": s}, "plan": r[0]}, gsp.inc_gamma(s, xpos), interp_gplan(r, xpos), 1e-14)
+        off += len(g_orders)
+        for s, r in zip(g_orders, res[off:]):
+            count("inc_gamma_low:" + r[0])
+            compare("special/inc_gamma_low", {"cls": "inc_gamma_low", "kw": {"s": s}, "plan": r[0]}, gsp.inc_gamma_low(s, xpos), interp_lplan(r, xpos), 1e-14)
+
+    # ---- (2) functions built on exp_int, expanded by the model
+    cases = []
+    sc = special_cases(ctx, rng)
+    idx = rng.choice(len(sc), size=min(len(sc), ctx.scale(60, 600)), replace=False)
+    for i in idx:
+        cases.append(sc[int(i)])
+    for name in SPECIAL:
+        for _ in range(ctx.scale(3, 30)):
+            cases.append((name, {k: v for k, v in gen_opt(rng, name, 1, False)[0].items() if k != "len_low"}, "random"))
+    built = []
+    ops = []
+    for name, opt, label in cases:
+        dim = gen_dim(rng, name)
+        common = gen_common(rng)
+        opt = dict(opt)
+        if name in TPL3:
+            opt["len_low"] = float(rng.choice([0.0, 0.0, 1e-9, rng.uniform(0.05, 5)]))
+        try:
+            m = make(name, dim, common, opt)
+        except ValueError:
+            continue
+        r = special_lags(name, m, rng)
+        if name == "Integral":
+            h = r / m.len_rescaled
+            ops.append({"op": "special_model", "fn": "integral", "nu": proto.f2b(m.nu), "r": proto.fbits(h)})
+            with warnings.catch_warnings(), np.errstate(all="ignore"):
+                warnings.simplefilter("ignore")
+                impl = np.asarray(m.cor(h), dtype=float)
+        else:
+            alpha = {"TPLGaussian": 2.0, "TPLExponential": 1.0}.get(name) or float(m.alpha)
+            ops.append({"op": "special_model", "fn": "tpl", "len_scale": proto.f2b(m.len_scale), "len_low": proto.f2b(m.len_low),
+                        "rescale": proto.f2b(m.rescale), "hurst": proto.f2b(m.hurst), "alpha": proto.f2b(alpha), "r": proto.fbits(r)})
+            with warnings.catch_warnings(), np.errstate(all="ignore"):
+                warnings.simplefilter("ignore")
+                impl = np.asarray(m.correlation(r), dtype=float)
+        built.append((name, m, opt, common, label, r, impl))
+    # the helper itself, with arbitrary length scales
+    for _ in range(ctx.scale(10, 100)):
+        hurst, alpha, ln = float(rng.uniform(0.1001, 0.999)), float(rng.choice([1.0, 2.0, rng.uniform(0.05, 2.0)])), logu(rng, 1e-3, 1e3)
+        r = np.concatenate([[0.0, 1e-8 * ln, nextk(1e-8, 1) * ln, nextk(1e-8, -1) * ln, -0.3 * ln], np.exp(rng.uniform(np.log(1e-8), np.log(50), 8)) * ln])
+        ops.append({"op": "special_model", "fn": "tplstable", "len": proto.f2b(ln), "hurst": proto.f2b(hurst), "alpha": proto.f2b(alpha),
+                    "r": proto.fbits(r)})
+        with warnings.catch_warnings(), np.errstate(all="ignore"):
+            warnings.simplefilter("ignore")
+            impl = np.asarray(gsp.tplstable_cor(r, ln, hurst, alpha), dtype=float)
+        built.append(("tplstable_cor", None, {"hurst": hurst, "alpha": alpha, "len": ln}, {}, "random", r, impl))
+    forms = proto.run_driver(ops)
+    # second round: every exp_int(s, x) the model asked for
+    need = {}
+    for f in forms:
+        if isinstance(f, dict) and "error" in f:
+            continue
+        for lag in f:
+            for coef, sb, xb in lag["t"]:
+                need.setdefault(sb, {})[xb] = None
+    order = sorted(need)
+    res = proto.run_driver([{"op": "special_exp_int", "s": sb, "x": sorted(need[sb])} for sb in order])
+    with warnings.catch_warnings(), np.errstate(all="ignore"):
+        warnings.simplefilter("ignore")
+        for sb, r in zip(order, res):
+            xbits = sorted(need[sb])
+            vals, _ = interp_exp_int(r, proto.unbits(xbits))
+            for xb, v in zip(xbits, vals):
+                need[sb][xb] = float(v)
+        for (name, m, opt, common, label, r, impl), f in zip(built, forms):
+            case = {"cls": name, "kw": {**common, **opt}, "sample": label}
+            if isinstance(f, dict) and "error" in f:
+                dis.append({"what": f"special/{name}: model raised {f['error']}", "case": case})
+                continue
+            model = np.empty(len(f))
+            cond = np.zeros(len(f))
+            for i, lag in enumerate(f):
+                v = proto.b2f(lag["c"])
+                for coef, sb, xb in lag["t"]:
+                    c, sv, xv = proto.b2f(coef), proto.b2f(sb), proto.b2f(xb)
+                    v = v + c * need[sb][xb]
+                    cond[i] += abs(c) * float(64 * recurrence_error_bound(sv, np.array([xv]))[0] + asymptote_error_bound(sv, np.array([xv]))[0])
+                model[i] = v
+            count(f"model:{name}")
+            count(f"model-sample:{label.split(':')[-1]}")
+            # 1e-12 relative + the rounding the code's own recurrence admits at this order (orders just outside the isclose band)
+            compare(f"special/{name}", case, impl, model, 1e-12, cond + 16 * EPS)
+    return evals, distinct, dis, dist, samples
+
+
+HIST_KERNELS = ["Gaussian", "Exponential", "Linear", "Spherical", "Cubic", "Circular", "TPLSimple", "HyperSpherical", "Matern"]
+
+
+def corr_histories(ctx, rng):
+    """read / change / read histories of one living model object against GSV.Model.CovFn.mrun: after every in-place change
+    (optional argument, dim, len_scale, rescale, var, nugget, anis, integral_scale) the model predicts len_scale and
+    integral_scale_vec from the CURRENT parameters (classes whose integral of cor is a closed form in the model)"""
+    ops, meta = [], []
+    dist = {}
+    for name in HIST_KERNELS:
+        for _ in range(ctx.scale(3, 25)):
+            dim = gen_dim(rng, name)
+            common = gen_common(rng)
+            shape_arg = {"TPLSimple": "nu", "Matern": "nu"}.get(name)
+            opt = {}
+            if name == "TPLSimple":
+                opt = {"nu": float(rng.uniform((dim + 1) / 2, 12.0))}
+            if name == "Matern":
+                opt = {"nu": float(rng.choice([0.5, 1.5, 2.5]))}
+            anis = [logu(rng, 0.1, 10) for _ in range(dim - 1)]
+            m = make(name, dim, common, opt, anis=anis)
+            jops, trace, impl = [], [], []
+
+            def snap():
+                with warnings.catch_warnings():
+                    warnings.simplefilter("ignore")
+                    impl.append([float(m.len_scale)] + [float(v) for v in m.integral_scale_vec])
+            start = {"op": "covfn_history", "kernel": name, "dim": dim, "anis": proto.fbits(m.anis), **par_bits(m)}
+            if shape_arg:
+                start["shape"] = proto.f2b(getattr(m, shape_arg))
+            snap()
+            for _ in range(int(rng.randint(2, 7))):
+                k = str(rng.choice(["shape", "shape", "dim", "len_scale", "rescale", "var", "nugget", "anis", "integral_scale"]))
+                if shape_arg and rng.rand() < 0.3:
+                    k = "shape"
+                if k == "shape" and not shape_arg:
+                    k = "dim"
+                with warnings.catch_warnings():
+                    warnings.simplefilter("ignore")
+                    if k == "shape":
+                        v = float(rng.uniform((m.dim + 1) / 2, 12.0)) if name == "TPLSimple" else float(rng.choice([0.5, 1.5, 2.5]))
+                        setattr(m, shape_arg, v)
+                        jops.append({"k": "shape", "v": proto.f2b(v)})
+                    elif k == "dim":
+                        cand = [d for d in range(1, MAXDIM.get(name, 3) + 1) if d != m.dim and (name != "TPLSimple" or m.nu >= (d + 1) / 2)]
+                        if not cand:
+                            continue
+                        v = int(rng.choice(cand))
+                        m.dim = v
+                        jops.append({"k": "dim", "d": v, "anis": proto.fbits(m.anis)})
+                    elif k == "anis":
+                        if m.dim == 1:
+                            continue
+                        v = [logu(rng, 0.1, 10) for _ in range(m.dim - 1)]
+                        m.anis = v
+                        jops.append({"k": "anis", "anis": proto.fbits(m.anis)})
+                    else:
+                        v = {"len_scale": lambda: logu(rng, 0.05, 50.0), "rescale": lambda: logu(rng, 0.2, 5.0),
+                             "var": lambda: logu(rng, 1e-2, 1e2), "nugget": lambda: float(rng.uniform(0, 5)),
+                             "integral_scale": lambda: logu(rng, 0.05, 20.0)}[k]()
+                        setattr(m, k, v)
+                        jops.append({"k": k, "v": proto.f2b(v)})
+                trace.append(k)
+                dist["hist-op:" + k] = dist.get("hist-op:" + k, 0) + 1
+                snap()
+            ops.append({**start, "ops": jops})
+            meta.append((name, {"cls": name, "dim": dim, "kw": {**common, **opt, "anis": anis}, "history": trace}, impl))
+    res = proto.run_driver(ops)
+    evals, dis, samples = 0, [], []
+    for (name, case, impl), r in zip(meta, res):
+        if isinstance(r, dict) and "error" in r:
+            dis.append({"what": f"history/{name}: model raised {r['error']}", "case": case})
+            continue
+        exact = name in ("Gaussian", "Exponential", "Matern")
+        rtol = 1e-12 if exact else 1e-4        # quad-based integral scales: see intscale_case
+        for step, (a, row) in enumerate(zip(impl, r)):
+            b = proto.unbits(row).astype(float)
+            a = np.asarray(a, dtype=float)
+            evals += a.size
+            if a.shape != b.shape or differs(b, a, 0.0, rtol, 0).any():
+                dis.append({"what": "history/len_scale,integral_scale_vec", "case": case, "step": step, "impl": a.tolist(), "model": b.tolist()})
+                break
+        else:
+            if len(samples) < 2:
+                samples.append({"label": "history", "case": case, "impl_first": impl[-1], "model_first": proto.unbits(r[-1]).tolist()})
+    return evals, len(meta), dis, dist, samples
+
+
 def correspondence(ctx):
     rng = np.random.RandomState(ctx.seed + 303)
     col = Collector()
@@ -431,12 +748,24 @@ def correspondence(ctx):
     col.add({"op": "covfn_isclose0", "lags": proto.fbits(edge)}, "isclose0", {"cls": "-", "kw": {}},
             np.isclose(edge, 0).astype(float), 0.0, rtol=0.0)
     col.finish()
-    return {"evaluations": col.evals, "distinct_nontrivial": len(col.distinct),
+    e_s, d_s, dis_s, dist_s, samp_s = corr_special(ctx, np.random.RandomState(ctx.seed + 313))
+    e_h, d_h, dis_h, dist_h, samp_h = corr_histories(ctx, np.random.RandomState(ctx.seed + 323))
+    col.evals += e_s + e_h
+    col.disagreements += dis_s + dis_h
+    col.dist.update(dist_s)
+    col.dist.update(dist_h)
+    col.samples += samp_s[:1] + samp_h[:1]
+    return {"evaluations": col.evals, "distinct_nontrivial": len(col.distinct) + d_s + d_h,
             "rule": "one case = (class or user subclass via route, parameter set within bounds on an elementary slice, function / "
                     "variant); every case is evaluated on a lag grid {0, isclose band and its edges, 1e-6 ℓ, inside, support edge "
                     "±1 ulp, beyond, 20 ℓ, 100 ℓ, negative, random}; evaluations = compared doubles; distinct = distinct "
                     "(function, route, class, parameters); tolerance 1e-12 relative + 64 eps × natural scale "
-                    "(1e-10 where the lag itself passes through sin / a rotation)",
+                    "(1e-10 where the lag itself passes through sin / a rotation); tools.special: exp_int / inc_gamma / inc_gamma_low "
+                    "on orders ON, 1-4 ulp off, inside / at the edges of / just outside the np.isclose band of every integer sampled and at "
+                    "-0.5, half-integers, arguments through x<0, 0, the 1e-20 limit, 30 / -s/2 asymptote switch (scipy leaves evaluated by the "
+                    "harness, dispatch and elementary branches by the model, 1e-13); tplstable_cor, TPL*.correlation, Integral.cor expanded by "
+                    "the model into const + sum coef*exp_int(s,x) (1e-12 + rounding admitted by the recurrence); read/change/read histories: "
+                    "len_scale and integral_scale_vec after every in-place change (1e-12 closed-form classes, 1e-4 quad-based)",
             "samples": col.samples, "disagreements": col.disagreements[:20], "distribution": col.dist}
 
 
@@ -784,6 +1113,365 @@ CF_TOL = {
 }
 
 
+# ------------------------------------------------------------------ special-function plumbing (tools/special.py)
+# Integral / TPLGaussian / TPLExponential / TPLStable evaluate E_s(x) through tools.special.exp_int, whose branches are
+#   np.isclose(s, 1) -> exp1;  np.isclose(s, around(s)) -> expn(int order);  x**e <= 1e-20 -> limit;  x > max(30, -s/2) ->
+#   asymptote;  else inc_gamma(1 - s, x) * x**(s - 1)  with inc_gamma's own isclose / recursion branches.
+# The samplers below derive shape values from those conditions instead of drawing them uniformly.
+SPECIAL = ("Integral", "TPLGaussian", "TPLExponential", "TPLStable")
+ISCLOSE_ATOL, ISCLOSE_RTOL = 1e-8, 1e-5
+
+
+def nextk(v, k):
+    v = float(v)
+    for _ in range(abs(int(k))):
+        v = float(np.nextafter(v, np.inf if k > 0 else -np.inf))
+    return v
+
+
+def band(n):
+    """half width of np.isclose(s, n) with the numpy defaults"""
+    return ISCLOSE_ATOL + ISCLOSE_RTOL * abs(n)
+
+
+def order_targets(n):
+    """orders around the integer n: on it, 1..4 ulp off, deep inside / at both edges of / just outside the isclose band,
+    a quarter off, and the half-integers where around() switches (labels are for the evidence only)"""
+    t = [("int", float(n))]
+    tol = band(n)
+    for sg, nm in ((-1, "below"), (1, "above")):
+        t += [("ulp1-" + nm, nextk(n, sg)), ("ulp4-" + nm, nextk(n, 4 * sg)), ("rel1e-13-" + nm, n * (1 + sg * 1e-13)),
+              ("rel1e-10-" + nm, n * (1 + sg * 1e-10)), ("band-mid-" + nm, n + sg * 0.3 * tol),
+              ("band-edge-in-" + nm, n + sg * tol * (1 - 1e-4)), ("band-edge-out-" + nm, n + sg * tol * (1 + 1e-4)),
+              ("off-band-" + nm, n + sg * 4 * tol), ("quarter-" + nm, n + sg * 0.25)]
+    t += [("half", n + 0.5), ("half+ulp", nextk(n + 0.5, 1)), ("half-ulp", nextk(n + 0.5, -1))]
+    return t
+
+
+def order_of(name, opt):
+    """order of the exponential integral behind class `name` (for sampling / classification only)"""
+    if name == "Integral":
+        return 1.0 + 0.5 * opt["nu"]
+    alpha = {"TPLGaussian": 2, "TPLExponential": 1}.get(name) or opt["alpha"]
+    return 1 + 2 * opt["hurst"] / alpha
+
+
+def order_class(s):
+    n = round(s)
+    d = abs(s - n)
+    if d == 0:
+        return "integer"
+    if d <= 16 * EPS * max(abs(n), 1):
+        return "ulps-off"
+    if d <= band(n):
+        return "in-band"
+    if d <= 8 * band(n):
+        return "near-band"
+    return "half" if abs(d - 0.5) < 1e-9 else "generic"
+
+
+def shape_for_order(name, s, rng):
+    """optional arguments of class `name` whose exponential-integral order is (up to rounding) s; None if outside the bounds"""
+    if name == "Integral":
+        nu = 2.0 * (s - 1.0)
+        return {"nu": nu} if 0.0 < nu <= 50.0 else None
+    if name in ("TPLGaussian", "TPLExponential"):
+        h = (s - 1.0) * (1.0 if name == "TPLGaussian" else 0.5)
+        return {"hurst": h} if 0.1 < h < 1.0 else None
+    lo, hi = 0.2 / (s - 1.0), min(2.0, 2.0 / (s - 1.0))       # TPLStable: hurst = (s - 1) alpha / 2 in (0.1, 1)
+    if not lo < hi:
+        return None
+    alpha = float(rng.choice([round(float(rng.uniform(lo, hi)), 2), float(rng.uniform(lo, hi))]))
+    if not lo < alpha < hi:
+        alpha = 0.5 * (lo + hi)
+    return {"hurst": (s - 1.0) * alpha / 2.0, "alpha": alpha}
+
+
+_DECIMAL_PAIRS = None
+
+
+def decimal_pairs():
+    """ordinary two-digit (hurst, alpha) pairs of TPLStable whose order 1 + 2 hurst / alpha is an integer in exact arithmetic
+    but lands on / just below / just above it in doubles"""
+    global _DECIMAL_PAIRS
+    if _DECIMAL_PAIRS is None:
+        out = {"integer": [], "below": [], "above": []}
+        for j in range(11, 100):
+            for k in range(1, 201):
+                h, a = j / 100, k / 100
+                s = 1 + 2 * h / a
+                n = round(s)
+                if s == n:
+                    out["integer"].append((h, a))
+                elif abs(s - n) < 1e-12:
+                    out["below" if s < n else "above"].append((h, a))
+        _DECIMAL_PAIRS = out
+    return _DECIMAL_PAIRS
+
+
+def recurrence_error_bound(s, x):
+    """a-priori rounding error of E_s(x) computed as inc_gamma(1 - s, x) x**(s-1) by the upward recurrence
+    Gamma(a, x) = (Gamma(a + 1, x) - x**a e**-x) / a from a base in [0, 1): eps e**-x sum_j x**j / prod_{i<=j} |a_i|, a_i = 1 - s + i < 0.
+    It is what makes orders just outside the isclose band ill-conditioned (division by the distance to the integer);
+    0 where the integer-order shortcut (scipy expn) is taken"""
+    x = np.asarray(x, dtype=float)
+    n = round(s)
+    if abs(s - n) <= band(n) and s > -0.5:
+        return np.zeros_like(x)
+    a, j, logprod = 1.0 - s, 0, 0.0
+    tot = np.zeros_like(x)
+    with np.errstate(all="ignore"):
+        lx = np.log(np.maximum(x, 1e-300))
+        while a < 0 and j < 400:
+            logprod += math.log(abs(a))
+            tot += np.exp(np.minimum(j * lx - logprod - x, 700.0))
+            a += 1.0
+            j += 1
+    return EPS * tot
+
+
+def asymptote_error_bound(s, x):
+    """what the documented first-order asymptote exp(-x) (1/x - s/x**2) of E_s(x), used for x > 30, admits: the first omitted term
+    exp(-x) s (s + 1) / x**3 of the (alternating, enveloping) asymptotic series.  Also applied within 1e-9 of x = 30 (relative), where the rounding of
+    x = h**alpha decides the branch"""
+    x = np.asarray(x, dtype=float)
+    with np.errstate(all="ignore"):
+        return np.where(x >= 30.0 * (1 - 1e-9), np.exp(-x) * abs(s) * (abs(s) + 1.0) / np.maximum(x, 1.0) ** 3, 0.0)
+
+
+def special_lags(name, m, rng):
+    """lags that put the argument x = h**alpha of E_s just outside the code's snap-to-zero band, through the small-x range,
+    on both sides of the asymptote switch x = 30 and far into the tail; h relative to each truncation scale of the model"""
+    alpha = {"Integral": 2.0, "TPLGaussian": 2.0, "TPLExponential": 1.0}.get(name) or float(m.alpha)
+    xs = [1e-3, 0.3, 1.0, 5.0, 29.9, 30.0, nextk(30.0, 1), 30.5, 45.0, 200.0, 800.0, float(rng.uniform(0.01, 30.0)),
+          float(rng.uniform(30.0, 60.0))]
+    hs = [1.05e-8, 1e-7, 1e-5, 1e-3] + [math.exp(math.log(x) / alpha) for x in xs if abs(math.log(x) / alpha) < 300]
+    hs = [h for h in hs if h >= 1.05e-8]      # tplstable_cor snaps |r / len| <= 1e-8 to the value at 0
+    if name == "Integral":
+        scales = [m.len_rescaled]
+        hs += [0.9e-10, 1.1e-10]          # x = h**2 on both sides of the x <= 1e-20 limit branch
+    else:
+        up = (m.len_low + m.len_scale) / m.rescale
+        scales = [up]
+        if m.len_low / m.rescale > 1e-8:
+            lo = m.len_low / m.rescale
+            hs = [h for h in hs if h * lo > 1.05e-8 * up] + [1.05e-8 * up / lo]    # stay outside the snap band of the upper scale
+            scales.append(lo)
+    r = [0.0] + [h * sc for sc in scales for h in hs]
+    return np.array(sorted(set(x for x in r if np.isfinite(x) and x < 1e200)))
+
+
+def special_cases(ctx, rng):
+    """(class, optional arguments, label): orders derived from the branch conditions of tools.special"""
+    cases = []
+    ints = {"Integral": list(range(1, 27)), "TPLGaussian": [1, 2], "TPLExponential": [1, 2, 3],
+            "TPLStable": list(range(2, 13)) + [17, 26, 41, 101, 181]}
+    for name in SPECIAL:
+        allowed = ints[name]
+        if ctx.quick:       # the smallest / largest reachable integers always, a seed-dependent choice of the others
+            inner = allowed[1:-1]
+            pick = sorted(set([allowed[0], allowed[-1]] + list(rng.choice(inner, size=min(3, len(inner)), replace=False)))) \
+                if inner else allowed
+        else:
+            pick = allowed
+        for n in pick:
+            for label, s in order_targets(n):
+                if s <= 1.0:
+                    continue
+                for _ in range(2 if name == "TPLStable" else 1):
+                    opt = shape_for_order(name, s, rng)
+                    if opt is not None:
+                        cases.append((name, opt, f"n={n}:{label}"))
+    pairs = decimal_pairs()
+    for kind, k in (("integer", 4), ("below", 10), ("above", 10)):
+        idx = rng.choice(len(pairs[kind]), size=min(len(pairs[kind]), ctx.scale(k, 4 * k)), replace=False)
+        for i in idx:
+            h, a = pairs[kind][int(i)]
+            cases.append(("TPLStable", {"hurst": h, "alpha": a}, "decimal-pair:" + kind))
+    return cases
+
+
+def search_special_orders(ctx, rng, viol):
+    """(b') closed forms of the exponential-integral families on orders ON / next to integers and the other branch
+    boundaries of tools.special, all lags from just outside the snap band to the far tail, against mpmath (30 digits).
+    Inside the isclose band the code evaluates the integer order: a result that matches that (and not the documented
+    order) is reported under its own key `closed-form:integer-order-snap:<cls>`; anything else under `closed-form:<cls>`."""
+    import mpmath as mp
+    ev = 0
+    dist = {}
+    worst = {}
+    old = mp.mp.dps
+    mp.mp.dps = 30
+    try:
+        for name, opt, label in special_cases(ctx, rng):
+            dim = gen_dim(rng, name)
+            common = gen_common(rng)
+            opt = dict(opt)
+            if name in TPL3:
+                opt["len_low"] = float(rng.choice([0.0, 0.0, rng.uniform(0.05, 5)]))
+            try:
+                m = make(name, dim, common, opt)
+            except ValueError:
+                continue
+            s = order_of(name, opt)
+            cls = order_class(s)
+            dist[f"{name}:{cls}"] = dist.get(f"{name}:{cls}", 0) + 1
+            r = special_lags(name, m, rng)
+            with warnings.catch_warnings(), np.errstate(all="ignore"):
+                warnings.simplefilter("ignore")
+                got = np.asarray(m.correlation(r), dtype=float)
+            ref = mp_reference(name, m)
+            want = np.array([float(ref(mp.mpf(float(x)))) for x in r])
+            ev += r.size
+            rtol, atol = CF_TOL[name]
+            # conditioning of the code's recurrence (see recurrence_error_bound), per truncation scale
+            alpha = {"Integral": 2.0, "TPLGaussian": 2.0, "TPLExponential": 1.0}.get(name) or float(m.alpha)
+            pref = abs(s - 1.0)
+            both = lambda x: 64 * recurrence_error_bound(s, x) + asymptote_error_bound(s, x)
+            if name == "Integral" or m.len_low / m.rescale <= 1e-8:
+                cond = pref * both((r / m.len_rescaled) ** alpha)
+            else:
+                up, lo = (m.len_low + m.len_scale) / m.rescale, m.len_low / m.rescale
+                wu, wl = up ** (2 * m.hurst), lo ** (2 * m.hurst)
+                cond = pref * (wu * both((r / up) ** alpha) + wl * both((r / lo) ** alpha)) / (wu - wl)
+                atol = atol * (wu + wl) / (wu - wl)
+            tol = rtol * np.abs(want) + atol + cond
+            err = np.abs(got - want)
+            bad = ~(err <= tol)
+            okerr = np.where(np.isfinite(err), err, np.inf)
+            worst[name] = max(worst.get(name, 0.0), float(np.max(okerr / (tol + 1e-320))))
+            if not bad.any():
+                continue
+            case = {"cls": name, "dim": dim, "kw": {**common, **opt}, "order": s, "order_class": cls, "sample": label}
+            nonfin = bad & ~np.isfinite(got)
+            if nonfin.any():
+                i = int(np.argmax(nonfin))
+                if r[i] == 0 and name == "Integral" and round(s) == 1 and cls in ("in-band", "ulps-off"):
+                    nkey = "nonfinite-at-zero:Integral"        # exp1 shortcut for nu <= ~2e-5: exp1(0) = inf
+                elif name == "Integral" and m.nu >= 30.0 and 0 < r[i] <= 1e-6 * m.len_rescaled and want[i] > 0.5:
+                    nkey = "small-lag-breakdown:Integral"      # x**(s-1) underflows, inf * 0
+                else:
+                    nkey = f"nonfinite:{name}"
+                viol.append({"key": nkey,
+                             "what": "correlation is not finite", "case": {**case, "lag": float(r[i]), "got": float(got[i]), "want": float(want[i])}})
+                bad = bad & np.isfinite(got)
+            if not bad.any():
+                continue
+            key = f"closed-form:{name}"
+            if name == "Integral" and (r[bad] <= 1.0000001e-10 * m.len_rescaled).all() and (np.abs(got[bad] - 1.0) <= 1e-12).all():
+                key = "closed-form:Integral:origin-limit"      # E_s(x) replaced by its limit 1/(s-1) for x = h**2 <= 1e-20: cor = 1
+            elif cls in ("in-band", "ulps-off"):
+                refs = mp_reference(name, m, snap=True)
+                wsnap = np.array([float(refs(mp.mpf(float(x)))) for x in r])
+                if (np.abs(got[bad] - wsnap[bad]) <= rtol * np.abs(wsnap[bad]) + atol).all():
+                    key = f"closed-form:integer-order-snap:{name}"
+            i = int(np.argmax(np.where(bad, err - tol, -np.inf)))
+            viol.append({"key": key, "what": "correlation differs from the documented formula (mpmath, 30 digits) for an order of the "
+                         "exponential integral on / next to an integer", "case": {**case, "lag": float(r[i]), "got": float(got[i]), "want": float(want[i]),
+                                                                                   "n_bad": int(bad.sum())}})
+    finally:
+        mp.mp.dps = old
+    return ev, worst, dist
+
+
+def search_special_helpers(ctx, rng, viol):
+    """(b'') the public helpers of tools.special themselves against mpmath (40 digits) on well-conditioned arguments: exact
+    integer orders and orders well outside the isclose bands (the bands are covered through the models above), arguments on
+    both sides of the x <= 1e-20 limit, the x = 30 asymptote switch, x < 0, poles of the lower incomplete gamma function"""
+    import mpmath as mp
+    from gstools.tools import special as gsp
+    ev = 0
+    old = mp.mp.dps
+    mp.mp.dps = 40
+
+    def report(fn, args, x, got, want):
+        viol.append({"key": f"special:{fn}", "what": f"tools.special.{fn} differs from its definition (mpmath, 40 digits)",
+                     "case": {"cls": fn, "kw": args, "x": float(x), "got": float(got), "want": float(want)}})
+
+    def check(fn, args, xs, got, want, tol):
+        nonlocal ev
+        got, want = np.asarray(got, dtype=float), np.asarray(want, dtype=float)
+        ev += got.size
+        same = (got == want) | (np.isnan(got) & np.isnan(want))
+        with np.errstate(all="ignore"):
+            bad = ~same & ~(np.abs(got - want) <= tol)
+        if bad.any():
+            i = int(np.argmax(bad))
+            report(fn, args, xs[i], got[i], want[i])
+    try:
+        with warnings.catch_warnings(), np.errstate(all="ignore"):
+            warnings.simplefilter("ignore")
+            # exp_int
+            ints = [1, 2, 3, 7, 26, 101] if ctx.quick else list(range(1, 30)) + [57, 101]
+            orders = [float(n) for n in ints] + [n + d for n in ints[:4] for d in (0.25, 0.5, -0.25)] + list(rng.uniform(1.05, 30, ctx.scale(4, 30))) \
+                + [0.5, 0.0, -1.5, -7.25]
+            for s in orders:
+                xs = np.array([-2.0, 0.0, 1e-30, 1e-12, 1e-6, 1e-3, 0.1, 1.0, 5.0, 29.9, 30.0, 30.1, 50.0, 200.0] + list(np.exp(rng.uniform(-14, 4, 3))))
+                if s < 3.0:
+                    xs = xs[(xs <= 0) | (xs >= 1e-13)]      # limit branch 1/(s-1) below 1e-20 is only accurate for orders >= ~3 (finding N5)
+                if s <= 1.0:
+                    xs = xs[(xs < 0) | (xs >= 0.1)]         # orders <= 1 are not used by any model: regular arguments only
+                if s >= 15.0 and s != round(s):
+                    xs = xs[(xs <= 0) | (xs >= 1e-3)]       # inf * 0 for small x and large non-integer order (finding N2)
+                got = gsp.exp_int(s, xs)
+                want = np.array([float(mp.expint(mp.mpf(s), mp.mpf(float(x)))) if x > 0 else (np.nan if x < 0 else (1.0 / (s - 1.0) if s > 1 else np.inf))
+                                 for x in xs])
+                tol = 1e-9 * np.abs(want) + 1e-13 + 64 * recurrence_error_bound(s, np.abs(xs)) + asymptote_error_bound(s, np.abs(xs))
+                check("exp_int", {"s": s}, xs, got, want, tol)
+            # inside the isclose bands the helpers evaluate the integer order (finding N4): compare with exactly that
+            xs = np.array([1e-6, 1e-3, 0.1, 1.0, 5.0, 29.0, 31.0, 100.0])
+            for n in ([1, 2, 3, 26] if ctx.quick else list(range(1, 28))):
+                for sg in (-1, 1):
+                    for d in (0.0, 4 * EPS * n, 0.5 * band(n), 0.99 * band(n)):
+                        s = n + sg * d
+                        want = np.array([float(mp.expint(n, mp.mpf(float(x)))) for x in xs])
+                        check("exp_int", {"s": s, "integer_order": n}, xs, gsp.exp_int(s, xs), want, 1e-11 * np.abs(want) + 1e-300)
+                        if n == 1:
+                            continue
+                        sn = 1.0 - s        # order of inc_gamma next to the non-positive integer 1 - n
+                        want = np.array([float(mp.mpf(float(x)) ** mp.mpf(sn) * mp.expint(n, mp.mpf(float(x)))) for x in xs])
+                        if abs(sn - (1 - n)) <= band(1 - n):
+                            check("inc_gamma", {"s": sn, "integer_order": 1 - n}, xs, gsp.inc_gamma(sn, xs), want, 1e-11 * np.abs(want) + 1e-300)
+                            check("inc_gamma_low", {"s": sn, "integer_order": 1 - n}, xs, gsp.inc_gamma_low(sn, xs), np.full(xs.shape, np.inf), 0.0)
+            # inc_gamma / inc_gamma_low
+            xs = np.array([1e-6, 1e-3, 0.1, 1.0, 5.0, 30.0, 100.0] + list(np.exp(rng.uniform(-10, 3, 3))))
+            for s in [0.0, -1.0, -2.0, -5.0, 1.0, 2.5, 0.5, -0.5, -1.5, -2.25, -7.3, 3.7] + list(rng.uniform(-6, 5, ctx.scale(3, 30))):
+                if order_class(s) in ("in-band", "ulps-off", "near-band"):
+                    continue
+                want = np.array([float(mp.gammainc(mp.mpf(s), mp.mpf(float(x)), mp.inf)) for x in xs])
+                cond = recurrence_error_bound(1.0 - s, xs) * xs ** s if s < 0 else 0.0
+                check("inc_gamma", {"s": s}, xs, gsp.inc_gamma(s, xs), want, 1e-10 * np.abs(want) + 64 * cond)
+                if s == round(s) and s <= 0:
+                    wl = np.full(xs.shape, np.inf)
+                else:
+                    # s > 0: the integral itself; s < 0: its analytic continuation Gamma(s) - Gamma(s, x) (120 digits: it cancels)
+                    with mp.workdps(120):
+                        wl = np.array([float(mp.gammainc(mp.mpf(s), 0, mp.mpf(float(x))) if s > 0 else
+                                             mp.gamma(mp.mpf(s)) - mp.gammainc(mp.mpf(s), mp.mpf(float(x)), mp.inf)) for x in xs])
+                check("inc_gamma_low", {"s": s}, xs, gsp.inc_gamma_low(s, xs), wl, 1e-10 * np.abs(wl) + 64 * cond + 1e-300)
+            # inc_beta
+            for _ in range(ctx.scale(4, 40)):
+                a, b = float(rng.uniform(0.2, 5)), float(rng.uniform(0.2, 5))
+                xs = np.array([0.0, 1e-6, 0.1, 0.5, 0.9, 1.0, float(rng.uniform(0, 1))])
+                want = np.array([float(mp.betainc(a, b, 0, float(x))) for x in xs])
+                check("inc_beta", {"a": a, "b": b}, xs, gsp.inc_beta(a, b, xs), want, 1e-10 * np.abs(want) + 1e-14)
+            # tplstable_cor
+            pairs = decimal_pairs()
+            pp = [pairs[k][int(i)] for k in ("integer", "below", "above") for i in rng.choice(len(pairs[k]), size=ctx.scale(2, 12), replace=False)]
+            pp += [(float(rng.uniform(0.1001, 0.999)), float(rng.uniform(0.05, 2.0))) for _ in range(ctx.scale(4, 30))]
+            for hurst, alpha in pp:
+                ln = logu(rng, 1e-3, 1e3)
+                hs = np.array([0.0, 0.5e-8, 1.05e-8, 1e-6, 1e-3, 0.3, 1.0, 3.0] + [x ** (1.0 / alpha) for x in (29.9, 30.5, 100.0) if x ** (1.0 / alpha) < 1e100])
+                sord = 1 + 2 * hurst / alpha
+                want = np.array([1.0 if h <= 1e-8 else float(2 * mp.mpf(hurst) / mp.mpf(alpha) * mp.expint(1 + 2 * mp.mpf(hurst) / mp.mpf(alpha), mp.mpf(float(h)) ** mp.mpf(alpha)))
+                                 for h in hs])
+                tol = 1e-9 * np.abs(want) + 1e-13 + abs(sord - 1.0) * (64 * recurrence_error_bound(sord, hs ** alpha) + asymptote_error_bound(sord, hs ** alpha))
+                check("tplstable_cor", {"hurst": hurst, "alpha": alpha, "len_scale": ln}, hs, gsp.tplstable_cor(hs * ln, ln, hurst, alpha), want, tol)
+    finally:
+        mp.mp.dps = old
+    return ev
+
+
 REFUSED = {}
 
 
@@ -884,6 +1572,319 @@ def search_percentile(ctx, rng, n_per_class, viol):
     return ev
 
 
+# ------------------------------------------------------------ derived quantities after in-place parameter changes
+COMPACT = ("Cubic", "Linear", "Circular", "Spherical", "HyperSpherical", "SuperSpherical", "TPLSimple")
+USER_HIST = ("user:cauchy", "user:powexp", "user:wave-vario")
+
+
+def user_hist_class(tag):
+    """user-defined models with an optional (shape) argument, given through cor / correlation / variogram; none of them
+    overrides calc_integral_scale, so they rely on whatever the base class does"""
+    from gstools import CovModel
+    if tag == "user:cauchy":
+        class UserCauchy(CovModel):
+            def default_opt_arg(self):
+                return {"shape": 1.5}
+
+            def default_opt_arg_bounds(self):
+                return {"shape": [0.75, 20.0]}
+
+            def cor(self, h):
+                return (1.0 + np.asarray(h, dtype=float) ** 2) ** (-self.shape)
+        return UserCauchy
+    if tag == "user:powexp":
+        class UserPowExp(CovModel):
+            def default_opt_arg(self):
+                return {"power": 1.2}
+
+            def default_opt_arg_bounds(self):
+                return {"power": [0.4, 2.0]}
+
+            def correlation(self, r):
+                return np.exp(-(np.abs(np.asarray(r, dtype=float)) / self.len_rescaled) ** self.power)
+        return UserPowExp
+
+    class UserDampedVario(CovModel):
+        def default_opt_arg(self):
+            return {"damp": 1.0}
+
+        def default_opt_arg_bounds(self):
+            return {"damp": [0.5, 5.0]}
+
+        def variogram(self, r):
+            h = np.abs(np.asarray(r, dtype=float)) / self.len_rescaled
+            return self.var * (1.0 - np.exp(-self.damp * h) * (1.0 + h) ** -2) + self.nugget
+    return UserDampedVario
+
+
+def hist_class(name):
+    return user_hist_class(name) if name.startswith("user:") else getattr(_gs(), name)
+
+
+def hist_opt(rng, name, dim):
+    if name == "user:cauchy":
+        return {"shape": float(rng.uniform(0.8, 6.0))}
+    if name == "user:powexp":
+        return {"power": float(rng.uniform(0.5, 2.0))}
+    if name == "user:wave-vario":
+        return {"damp": float(rng.uniform(0.5, 5.0))}
+    return gen_opt(rng, name, dim, elementary=False)[0]
+
+
+def state_of(m):
+    """everything a freshly built model is given"""
+    kw = dict(dim=m.dim, var=m.var, len_scale=m.len_scale, nugget=m.nugget, rescale=m.rescale, anis=list(map(float, m.anis)),
+              angles=list(map(float, m.angles)))
+    for k in m.opt_arg:
+        kw[k] = getattr(m, k)
+    return kw
+
+
+def fresh_like(name, m):
+    with warnings.catch_warnings():
+        warnings.simplefilter("ignore")
+        return hist_class(name)(**state_of(m))
+
+
+def quad_of_correlation(m, name):
+    """independent quadrature of the CURRENT m.correlation over [0, inf): split at the range so that the kink of the compactly
+    supported classes is an end point; (value, error estimate)"""
+    from scipy.integrate import quad
+    f = lambda r: float(np.asarray(m.correlation(np.array([r], dtype=float)), dtype=float)[0])
+    L = float(m.len_rescaled)
+    if name in TPL3:
+        L = float((m.len_low + m.len_scale) / m.rescale)
+    cuts = [0.0, 1e-3 * L, 0.1 * L, L] if name in COMPACT else [0.0, 1e-3 * L, 0.1 * L, L, 4 * L, 20 * L, np.inf]
+    tot, err = 0.0, 0.0
+    for a, b in zip(cuts[:-1], cuts[1:]):
+        v, e = quad(f, a, b, limit=200, epsabs=0.0, epsrel=1e-10)
+        tot, err = tot + v, err + e
+    return tot, err
+
+
+def derived(m, lags, per):
+    """observable derived quantities of a model (public API only)"""
+    with warnings.catch_warnings(), np.errstate(all="ignore"):
+        warnings.simplefilter("ignore")
+        out = {"integral_scale": float(m.integral_scale), "integral_scale_vec": np.asarray(m.integral_scale_vec, dtype=float),
+               "len_rescaled": float(m.len_rescaled), "len_scale_vec": np.asarray(m.len_scale_vec, dtype=float),
+               "sill": float(m.sill), "variogram": np.asarray(m.variogram(lags), dtype=float),
+               "correlation": np.asarray(m.correlation(lags), dtype=float), "cov_nugget": np.asarray(m.cov_nugget(lags), dtype=float)}
+        try:
+            out["percentile_scale"] = float(m.percentile_scale(per))
+        except Exception as e:      # noqa
+            out["percentile_scale"] = type(e).__name__
+    return out
+
+
+def hist_ops(rng, name, m, n_ops):
+    """a random sequence of in-place changes; every value stays inside the bounds of the class"""
+    ops = []
+    for _ in range(n_ops):
+        kinds = ["opt"] * 3 + ["len_scale", "rescale", "var", "nugget", "anis", "dim", "integral_scale", "opt+len_scale"]
+        k = str(rng.choice(kinds))
+        if k in ("opt", "opt+len_scale") and not m.opt_arg:
+            k = str(rng.choice(["len_scale", "rescale", "dim", "integral_scale"]))
+        ops.append(k)
+    return ops
+
+
+def apply_op(rng, name, m, k):
+    """returns a description of the change or None when not applicable; raises nothing for admissible values"""
+    dim = m.dim
+    if k in ("opt", "opt+len_scale"):
+        arg = str(rng.choice(m.opt_arg))
+        b = m.arg_bounds[arg]
+        typ = b[2] if len(b) > 2 else "cc"
+        for _ in range(50):
+            # inside the bounds of a fresh model of this dimension AND inside the bounds the object carries (dimension-dependent
+            # bounds are fixed at construction: known finding D8 of C14)
+            new = hist_opt(rng, name, dim)
+            v = new.get(arg)
+            if v is not None and v != getattr(m, arg) and (b[0] < v or (typ[0] == "c" and b[0] == v)) and (v < b[1] or (typ[1] == "c" and v == b[1])):
+                break
+        else:
+            return None
+        if name in TPL3 and arg == "len_low" and rng.rand() < 0.3:
+            new = {"len_low": 0.0}
+        setattr(m, arg, new[arg])
+        desc = {arg: new[arg]}
+        if k == "opt+len_scale":
+            v = logu(rng, 0.05, 50.0)
+            m.len_scale = v
+            desc["len_scale"] = v
+        return desc
+    if k == "len_scale":
+        v = logu(rng, 0.05, 50.0)
+        m.len_scale = v
+        return {"len_scale": v}
+    if k == "rescale":
+        v = logu(rng, 0.2, 5.0)
+        m.rescale = v
+        return {"rescale": v}
+    if k == "var":
+        v = logu(rng, 1e-2, 1e2)
+        m.var = v
+        return {"var": v}
+    if k == "nugget":
+        v = float(rng.choice([0.0, rng.uniform(0, 5)]))
+        m.nugget = v
+        return {"nugget": v}
+    if k == "anis":
+        if dim == 1:
+            return None
+        v = [logu(rng, 0.1, 10) for _ in range(dim - 1)]
+        m.anis = v
+        return {"anis": v}
+    if k == "dim":
+        cand = [d for d in range(1, MAXDIM.get(name, 3) + 1) if d != dim]
+        if not cand:
+            return None
+        d = int(rng.choice(cand))
+        # dimension-dependent bounds are fixed at construction (known finding D8 of C14): only move to a dimension in which the
+        # current optional arguments are admissible for a freshly built model
+        try:
+            kw = state_of(m)
+            kw.update(dim=d, anis=1.0, angles=0.0)
+            with warnings.catch_warnings():
+                warnings.simplefilter("error")
+                hist_class(name)(**kw)
+        except Exception:   # noqa
+            return None
+        m.dim = d
+        return {"dim": d}
+    if k == "integral_scale":
+        if (name in TPL3 and m.len_low > 0) or (name == "Rational" and m.alpha <= 0.55) or name == "JBessel":
+            return None     # documented refusal (TPL: len_low is kept fixed) / divergent integral / known finding D11 (quad on J_nu)
+        v = logu(rng, 0.05, 20.0)
+        m.integral_scale = v
+        return {"integral_scale": v}
+    raise KeyError(k)
+
+
+def search_histories(ctx, rng, n_per_class, viol):
+    """(g) read / change / read histories on ONE living model object: after any sequence of in-place changes of optional
+    arguments, dim, len_scale, rescale, anis, var, nugget, integral_scale every derived quantity must equal that of a freshly
+    built model with the resulting parameters, and the reported integral scale must be the integral of the CURRENT
+    correlation (independent quadrature).  Some histories start from a model constructed with integral_scale=..., some read
+    nothing before the first change, some read after every step."""
+    ev = 0
+    dist = {}
+    names = ALL_CLASSES + list(USER_HIST)
+    for name in names:
+        # quad over exp_int / jv per scalar lag is slow: fewer random histories for those classes
+        for t in range(1 + (max(1, n_per_class // 3) if name in TPL3 + ("JBessel", "Integral") else n_per_class)):
+            dim = gen_dim(rng, name) if not name.startswith("user:") else int(rng.randint(1, 4))
+            common = gen_common(rng)
+            opt = hist_opt(rng, name, dim)
+            kw = {k: v for k, v in common.items() if v is not None}
+            kw.update(opt)
+            if dim > 1:
+                kw["anis"] = [logu(rng, 0.1, 10) for _ in range(dim - 1)]
+            start = str(rng.choice(["plain", "plain", "ctor-integral-scale"]))
+            if start == "ctor-integral-scale" and name != "JBessel" and not (name in TPL3 and opt.get("len_low", 0) > 0) and not (
+                    name == "Rational" and opt["alpha"] <= 0.55):
+                kw.pop("len_scale", None)
+                kw["integral_scale"] = logu(rng, 0.05, 20.0)
+            else:
+                start = "plain"
+            with warnings.catch_warnings():
+                warnings.simplefilter("ignore")
+                m = hist_class(name)(dim=dim, **kw)
+            read_mode = str(rng.choice(["every-step", "random-steps", "end-only"]))
+            ops = hist_ops(rng, name, m, int(rng.randint(2, 6)))
+            if t == 0:      # always: read, change ONLY a shape argument (the dimension where the class has none), read
+                read_mode, ops = "every-step", ["opt" if m.opt_arg else "dim"]
+            trace = [{"start": start, "kw": {k: (v if not isinstance(v, list) else list(v)) for k, v in kw.items()}, "dim": dim}]
+            dist[f"start:{start}"] = dist.get(f"start:{start}", 0) + 1
+            dist[f"read:{read_mode}"] = dist.get(f"read:{read_mode}", 0) + 1
+            if read_mode != "end-only" or rng.rand() < 0.5:
+                derived(m, np.array([0.5 * m.len_rescaled]), 0.5)       # populate whatever the object memoises
+                trace.append("read")
+            broken = False
+            for i, k in enumerate(ops):
+                try:
+                    with warnings.catch_warnings():
+                        warnings.simplefilter("ignore")
+                        desc = apply_op(rng, name, m, k)
+                except ValueError as e:
+                    # an admissible value was refused: report (setters may leave the object half-changed afterwards: stop here)
+                    viol.append({"key": f"history:setter-refused:{k}:{name}", "what": f"in-place change '{k}' with a value inside the "
+                                 f"bounds raised ValueError: {e}", "case": {"cls": name, "trace": trace}})
+                    broken = True
+                    break
+                if desc is None:
+                    continue
+                trace.append(desc)
+                dist[f"op:{k}"] = dist.get(f"op:{k}", 0) + 1
+                last = i == len(ops) - 1
+                if not (last or k == "integral_scale" or read_mode == "every-step" or (read_mode == "random-steps" and rng.rand() < 0.5)):
+                    continue
+                trace.append("read")
+                L = float(m.len_rescaled)
+                lags = np.array([0.0, 1e-3 * L, 0.3 * L, 0.9 * L, 2.5 * L])
+                per = float(rng.choice([0.5, 0.9, rng.uniform(0.05, 0.95)]))
+                got = derived(m, lags, per)
+                if k == "integral_scale":
+                    # the integral scale can be prescribed instead of the length scale
+                    ev += 1
+                    rt = 1e-9 if name in ("Gaussian", "Exponential", "Stable", "Rational", "Matern", "Integral") else 1e-4
+                    if not abs(got["integral_scale"] - desc["integral_scale"]) <= rt * desc["integral_scale"]:
+                        viol.append({"key": f"integral-scale-setter:{'user' if name.startswith('user:') else name}",
+                                     "what": "after model.integral_scale = I the reported integral scale is not I",
+                                     "case": {"cls": name, "trace": list(trace), "state": state_of(m), "prescribed": desc["integral_scale"],
+                                              "reported": got["integral_scale"]}})
+                try:
+                    want = derived(fresh_like(name, m), lags, per)
+                except ValueError as e:
+                    viol.append({"key": f"history:state-not-constructible:{name}", "what": f"the state reached by admissible in-place "
+                                 f"changes is refused by the constructor: {e}", "case": {"cls": name, "trace": trace}})
+                    broken = True
+                    break
+                for q in got:
+                    ev += 1
+                    a, b = got[q], want[q]
+                    if isinstance(a, str) or isinstance(b, str):
+                        same = a == b
+                    else:
+                        a, b = np.atleast_1d(np.asarray(a, dtype=float)), np.atleast_1d(np.asarray(b, dtype=float))
+                        same = a.shape == b.shape and not differs(a, b, 0.0, rtol=1e-10).any()
+                    if not same:
+                        viol.append({"key": f"history:{q}:{'user' if name.startswith('user:') else name}",
+                                     "what": f"{q} after in-place parameter changes differs from that of a freshly built model with the "
+                                             "same parameters", "case": {"cls": name, "trace": list(trace), "state": state_of(m),
+                                                                         "got": np.asarray(a).tolist() if not isinstance(a, str) else a,
+                                                                         "fresh": np.asarray(b).tolist() if not isinstance(b, str) else b}})
+                # independent oracle: integral of the current correlation
+                skip = name == "JBessel" or (name == "Matern" and m.nu > 20.0) or (name == "Rational" and m.alpha <= 0.55)
+                if last and not skip:
+                    with warnings.catch_warnings(), np.errstate(all="ignore"):
+                        warnings.simplefilter("ignore")
+                        truth, qerr = quad_of_correlation(m, name)
+                    ev += 1
+                    exact = name in ("Gaussian", "Exponential", "Stable", "Rational", "Matern", "Integral")
+                    rtol = 1e-7 if exact else 1e-4
+                    rep = got["integral_scale"]
+                    if np.isfinite(truth) and qerr <= 1e-6 * abs(truth) and not abs(rep - truth) <= rtol * abs(truth):
+                        viol.append({"key": f"integral-scale:{'user' if name.startswith('user:') else name}",
+                                     "what": "integral_scale after in-place parameter changes is not the integral of the current correlation "
+                                             "(independent quadrature of model.correlation)",
+                                     "case": {"cls": name, "trace": list(trace), "state": state_of(m), "reported": rep,
+                                              "integral_of_correlation": truth}})
+                    vec = got["integral_scale_vec"]
+                    want_vec = truth * np.concatenate([[1.0], np.asarray(m.anis, dtype=float)])
+                    ev += 1
+                    if np.isfinite(truth) and qerr <= 1e-6 * abs(truth) and (vec.shape != want_vec.shape or not (
+                            np.abs(vec - want_vec) <= rtol * np.abs(want_vec)).all()):
+                        viol.append({"key": f"integral-scale-vec:{'user' if name.startswith('user:') else name}",
+                                     "what": "integral_scale_vec != integral of the current correlation x (1, anis)",
+                                     "case": {"cls": name, "trace": list(trace), "state": state_of(m), "reported": vec.tolist(),
+                                              "want": want_vec.tolist()}})
+            if broken:
+                continue
+    return ev, dist
+
+
 def dedup(viol, per_key=2):
     seen, out = {}, []
     for v in viol:
@@ -945,6 +1946,32 @@ def directed(ctx, viol):
             if np.max(np.abs(c)) > 1 + 1e-9:
                 viol.append({"key": f"correlation-exceeds-one:{name}", "what": f"correlation([2e-9, 4e-9]) = {c.tolist()} > 1",
                              "case": {"cls": name, "dim": 1, "kw": {k: v for k, v in kw.items() if k != "dim"}, "lag": 4e-9, "got": float(c[1])}})
+        # N4 / N5 / N6: exp_int shortcuts seen through Integral / TPLGaussian
+        mp.mp.dps = 30
+        for name, kw, lag in (("Integral", dict(dim=1, nu=3.99998, len_scale=1.0), 0.5), ("TPLGaussian", dict(dim=1, hurst=0.999992, len_scale=1.0), 0.5)):
+            m = getattr(gs, name)(**kw)
+            got = float(m.correlation(np.array([lag]))[0])
+            want = float(mp_reference(name, m)(mp.mpf(lag)))
+            snapped = float(mp_reference(name, m, snap=True)(mp.mpf(lag)))
+            ev += 1
+            if abs(got - want) > 1e-9 * abs(want):
+                viol.append({"key": f"closed-form:integer-order-snap:{name}" if abs(got - snapped) <= 1e-9 * abs(snapped) else f"closed-form:{name}",
+                             "what": "correlation differs from the documented formula (order of the exponential integral within 1e-5 of an integer)",
+                             "case": {"cls": name, "dim": 1, "kw": {k: v for k, v in kw.items() if k != "dim"}, "lag": lag, "got": got, "want": want}})
+        m = gs.Integral(dim=1, nu=0.05, len_scale=1000.0, rescale=1.0)
+        got = float(m.correlation(np.array([9e-8]))[0])
+        want = float(mp_reference("Integral", m)(mp.mpf(9e-8)))
+        ev += 1
+        if abs(got - want) > 1e-9:
+            viol.append({"key": "closed-form:Integral:origin-limit" if abs(got - 1.0) <= 1e-12 else "closed-form:Integral",
+                         "what": "correlation at a lag <= 1e-10 len_rescaled is the limit value 1, not the documented formula",
+                         "case": {"cls": "Integral", "dim": 1, "kw": {"nu": 0.05, "len_scale": 1000.0, "rescale": 1.0}, "lag": 9e-8, "got": got, "want": want}})
+        m = gs.Integral(dim=1, nu=1e-5)
+        got = float(m.correlation(np.array([0.0]))[0])
+        ev += 1
+        if not abs(got - 1.0) <= 1e-12:
+            viol.append({"key": "nonfinite-at-zero:Integral" if not np.isfinite(got) else "cor0:Integral", "what": f"correlation(0) = {got}",
+                         "case": {"cls": "Integral", "dim": 1, "kw": {"nu": 1e-5}, "lag": 0.0, "got": got, "want": 1.0}})
         # K3: percentile_scale
         for name, kw, per in (("TPLSimple", dict(dim=3, len_scale=10.0, nu=50.0), 0.5), ("JBessel", dict(dim=3, len_scale=10.0, nu=5.0), 0.9),
                               ("TPLSimple", dict(dim=3, len_scale=10.0, nu=5.0), 0.9)):
@@ -973,6 +2000,11 @@ def search(ctx, deep=False):
     ev += e2
     ev += search_integral_scale(ctx, rng, ctx.scale(2, 12) * mult, viol)
     ev += search_percentile(ctx, rng, ctx.scale(2, 20) * mult, viol)
+    e3, worst_so, dist_so = search_special_orders(ctx, np.random.RandomState(ctx.seed + 3103), viol)
+    ev += e3
+    e4, dist_h = search_histories(ctx, np.random.RandomState(ctx.seed + 3203), ctx.scale(2, 18) * mult, viol)
+    ev += e4
+    ev += search_special_helpers(ctx, np.random.RandomState(ctx.seed + 3303), viol)
     out, seen = dedup(viol)
     return {"evaluations": ev, "violations": out,
             "summary": "identities, nugget/axis/yadrenko/spatial variants and user routes on the real API for all 17 classes over their "
@@ -980,7 +2012,11 @@ def search(ctx, deep=False):
                        "setter; percentile_scale substituted back.  violation counts per key: " + str(seen)
                        + "; integral_scale= refused with ValueError for TPL models with len_low > 0: " + str(REFUSED)
                        + "; worst closed-form error (units of tolerance): "
-                       + str({k: round(v, 3) for k, v in worst.items()})}
+                       + str({k: round(v, 3) for k, v in worst.items()})
+                       + "; exponential-integral orders on / next to integers and branch boundaries of tools.special (class:order class -> "
+                         "models): " + str(dist_so) + ", worst error there (units of tolerance, known snap / breakdown cases included): "
+                       + str({k: (round(v, 3) if np.isfinite(v) else "inf") for k, v in worst_so.items()})
+                       + "; read/change/read histories vs freshly built models and independent quadrature (op counts): " + str(dist_h)}
 
 
 def replay(ctx, payload):
@@ -989,6 +2025,29 @@ def replay(ctx, payload):
     for v in payload.get("violations", []):
         c = v.get("case", {})
         key = v.get("key", "")
+        if "trace" in c and c.get("cls") in ALL_CLASSES + list(USER_HIST):
+            # a read / change / read history: redo it on one living object and compare with a freshly built model
+            name, trace = c["cls"], c["trace"]
+            kw0 = {k: val for k, val in trace[0]["kw"].items() if val is not None}
+            with warnings.catch_warnings():
+                warnings.simplefilter("ignore")
+                m = hist_class(name)(dim=trace[0]["dim"], **kw0)
+                for step in trace[1:]:
+                    if step == "read":
+                        derived(m, np.array([0.5 * m.len_rescaled]), 0.5)
+                    else:
+                        for k, val in step.items():
+                            setattr(m, k, val)
+                a = derived(m, np.array([0.5 * m.len_rescaled]), 0.5)
+                b = derived(fresh_like(name, m), np.array([0.5 * m.len_rescaled]), 0.5)
+                truth = quad_of_correlation(m, name)[0]
+            print(f"replay {key}: after the history integral_scale={a['integral_scale']!r} percentile_scale(0.5)={a['percentile_scale']!r}; "
+                  f"freshly built model: {b['integral_scale']!r} {b['percentile_scale']!r}; quadrature of the current correlation: {truth!r}")
+            bad += any(isinstance(a[q], str) != isinstance(b[q], str) or (not isinstance(a[q], str) and differs(
+                np.atleast_1d(a[q]), np.atleast_1d(b[q]), 0.0, rtol=1e-10).any()) for q in a)
+            if key.startswith("integral-scale") and name != "JBessel":
+                bad += abs(a["integral_scale"] - truth) > 1e-4 * abs(truth)
+            continue
         if "cls" not in c or c["cls"] not in ALL_CLASSES:
             continue
         kw = {k: val for k, val in c.get("kw", {}).items() if val is not None}
